@@ -383,6 +383,38 @@ def shadow_trees(rng, n):
     return out
 
 
+def repeat_trees(rng, n):
+    """Trees in which the SAME file is reached more than once without any cycle: included twice by one file, at two different
+    depths, through a diamond (two siblings include one common file), under two spellings of its path.  Textual splicing pastes
+    the lines each time (the repeated files hold instructions, data and constant definitions only, so that pasting them twice is a
+    legal program)."""
+    out = []
+    for k in range(n):
+        shape = k % 4
+        step = '    addi x{r}, x{r}, {v}\n    bytes {a} {b}\nSTEP = {v}\n'.format(r=5 + k % 20, v=1 + k % 100, a=k % 256, b=(k * 5) % 256)
+        files = {}
+        incs = ['inc1'] if k % 3 == 0 else []
+        if shape == 0:
+            files['proj/main.asm'] = 'start:\n    addi x1, x0, 1\ninclude step.asm\nmid:\n    addi x2, x0, STEP\ninclude step.asm\nend_:\n'
+            files['proj/step.asm'] = step
+        elif shape == 1:
+            files['proj/main.asm'] = 'include sub/a.asm\nmid:\ninclude sub/step.asm\n    addi x3, x0, 3\n'
+            files['proj/sub/a.asm'] = '    addi x4, x0, 4\ninclude step.asm\na_end:\n'
+            files['proj/sub/step.asm'] = step
+        elif shape == 2:
+            files['proj/main.asm'] = 'include left/l.asm\nbetween:\ninclude right/r.asm\nend_:\n    dw end_\n'
+            files['proj/left/l.asm'] = 'l_start:\ninclude ../common/f.asm\n    addi x6, x0, 6\n'
+            files['proj/right/r.asm'] = '    addi x7, x0, 7\ninclude ../common/f.asm\nr_end:\n'
+            files['proj/common/f.asm'] = step
+        else:
+            files['proj/main.asm'] = 'include sub/f.asm\ninclude ./sub/f.asm\ninclude "sub/../sub/f.asm"\nend_:\n'
+            files['proj/sub/f.asm'] = step
+        if incs:
+            files['inc1/unrelated.asm'] = '    addi x9, x0, 9\n'
+        out.append(Tree(files, 'proj/main.asm', incs, ['proj', '.', 'decoy'], ['repeat', 'repeat-%d' % shape], dirs=['decoy'] + incs))
+    return out
+
+
 def error_trees():
     """hand-made trees whose reading fails (reader correspondence only) or is an edge of the syntax"""
     T = []
